@@ -84,6 +84,12 @@ CLAIMED['C07'] = dict(tech='lane-dependence abstract interpretation of the max/a
          'the default threshold is inclusive and visits each cell once with no overriding backend; dispatcher arms. NaN / rounding not decided.',
     ref='DESIGN.md §4 C07')
 
+CLAIMED['C04'] = dict(tech='lane-dependence abstract interpretation of the AVX2 transpose network, relational summaries of the scalar placement / fill / wrap-row construction, who-writes-field rule, ceil-div formula agreement',
+    text='Static (part): the 5-stage unpack network plus 32 stores of stripe_avx2 is shown to be the byte transposition out[i+k][c] = seq[c*s+i+k] (1024 lane obligations), block bookkeeping in lock-step, scalar tail and fill '
+         'placement, the generic i -> (i mod R, i div R) placement with R = ceil(len/C) at every site, the wrap-row relation of configure_wrap (idempotent, R taken before the resize), buffer reuse through '
+         'StripedSequence::new (wrap = 0) with wrap/length written nowhere else, dispatcher arms and index formulas. Striping moves bytes, so nothing data-dependent remains; NEON not analysable here.',
+    ref='DESIGN.md §4 C04')
+
 NA = {
     'C11': 'numeric agreement of a tabulated distribution with the exact tail probability: quantifies over run-time floating-point values; no sound static argument in reach (DESIGN.md §6)',
     'C12': 'bounds computed probability ranges by exact tail probabilities at a granularity: run-time numerics, no structural necessary condition (DESIGN.md §6)',
